@@ -46,7 +46,7 @@ def run(tier):
             total += r["cases"]
             runs.append({"K": K, "arbitrary_streams": arb, "cases": r["cases"], "by_fault": r["by_fault"],
                          "by_result": r["by_result"], "diverging": sum(r["signatures"].values())})
-            for s in r.get("samples", [])[:2]:
+            for s in (r.get("samples") or [])[:2]:
                 c = json.loads(s)
                 res.sample({k: c[k] for k in ("orig", "relevant", "sent", "count", "fault", "result")})
             reported = 0
